@@ -591,9 +591,66 @@ def eval_pin(case):
     return out
 
 
+def eval_dup_history(case):
+    """generated passwords carry at least the requested entropy -- also when the symbol source repeats symbols and
+    also AFTER other sources have been used (the generators memoise which sources they have already validated).
+    A history = 48 rounds of [a valid run-time-built source is used and dropped, then a source of the same type
+    and shape with repeated symbols is offered]: the offer must be refused (ValueError) or, if it is accepted, the
+    output must still be long enough for the requested entropy counted over the DISTINCT symbols."""
+    import gc
+
+    from passlib import pwd as P
+
+    kind, form, entropy = case["kind"], case["form"], case["entropy"]
+    out = []
+    accepted = []
+    for i in range(48):
+        tag = f"{i:02d}"
+        if kind == "genword":
+            valid = "".join(chr(0x41 + (i + j) % 26) for j in range(8 + i % 3))
+            dup = "".join(chr(0x61 + (i + j) % 2) for j in range(8 + i % 3))  # 2 distinct symbols
+            if form == "bytes":
+                valid, dup = valid.encode("ascii"), dup.encode("ascii")
+            gen = lambda src: P.genword(entropy=entropy, chars=src)  # noqa: E731
+            count = lambda x: len(x)  # noqa: E731
+        else:
+            valid = " ".join(f"v{tag}w{j}" for j in range(6)).split()
+            dup = " ".join(f"d{tag}w{j % 2}" for j in range(6)).split()
+            if form == "tuple":
+                valid, dup = tuple(valid), tuple(dup)
+            elif form == "iter":
+                valid, dup = iter(valid), iter(dup)
+            gen = lambda src: P.genphrase(entropy=entropy, words=src, sep=" ")  # noqa: E731
+            count = lambda x: len(x.split(" "))  # noqa: E731
+        try:
+            gen(valid)
+        except Exception as e:  # noqa: BLE001
+            return [(f"C06|{kind}|dup_history:valid_source_refused:{form}", f"a source of distinct symbols ({form}) was refused: {e!r}")]
+        del valid
+        gc.collect()
+        try:
+            got = gen(dup)
+        except ValueError:
+            continue
+        except Exception as e:  # noqa: BLE001
+            return [(f"C06|{kind}|dup_history:raises:{type(e).__name__}:{form}", f"a source with repeated symbols raised {e!r}")]
+        distinct = 2
+        have = count(got) * math.log2(distinct)
+        if have + 1e-9 < entropy:
+            accepted.append((i, got, have))
+    if accepted:
+        i, got, have = accepted[0]
+        out.append((f"C06|{kind}|dup_history:entropy_shortfall:{form}",
+                    f"{kind}(entropy={entropy}, {form} source with 2 distinct symbols repeated) was accepted in {len(accepted)} of 48 rounds "
+                    f"after a valid source had been used (first: round {i}): output {got!r} carries {have:.1f} bits < {entropy} requested"))
+    return out
+
+
 def replay(case):
     if case.get("part") == "pin":
         return eval_pin(case)
+    if case.get("part") == "dup_history":
+        return eval_dup_history(case)
     return analyse(case["spec"], case.get("quick", True))
 
 
@@ -695,6 +752,14 @@ def work(task):
                 acc.violation(key, desc, case)
         acc.axis("part", "pin")
         return acc
+    if task.get("part") == "dup_history":
+        for case in task["cases"]:
+            acc.ev()
+            acc.cls("dup_history", case["kind"], case["form"], case["entropy"])
+            for key, desc in eval_dup_history(case):
+                acc.violation(key, desc, case)
+        acc.axis("part", "dup_history")
+        return acc
     spec = task["spec"]
     vs = analyse(spec, task["quick"], acc)
     case = {"spec": spec, "quick": task["quick"]}
@@ -720,6 +785,9 @@ def run(ctx):
                 pins.append({"part": "pin", "hasher": name, "entry": entry, "form": form})
     for i in range(0, len(pins), 64):
         tasks.append({"part": "pin", "cases": pins[i : i + 64]})
+    dups = [{"part": "dup_history", "kind": k, "form": f, "entropy": e}
+            for k, forms in (("genword", ("str", "bytes")), ("genphrase", ("list", "tuple", "iter"))) for f in forms for e in (24, 40)]
+    tasks.append({"part": "dup_history", "cases": dups})
     ctx.log(f"{len(ts)} generator targets, {len(pins)} pinning cases")
     acc = core.pmap(work, tasks)
     ctx.merge(acc)
